@@ -28,3 +28,10 @@ pub fn set_large_file_threshold(threshold: Option<u64>) {
 pub(crate) fn large_file_override(combined_file_sizes: u64) -> Option<bool> {
     LARGE_FILE_THRESHOLD.with(|c| c.get()).map(|t| combined_file_sizes > t)
 }
+
+/// The packet framing `Verifier::parse_signature` applies to a signature blob before the OpenPGP
+/// parser sees it: the lengths of the packets (header included), or `None` for broken framing.
+#[cfg(feature = "signature-pgp")]
+pub fn pgp_split_packets(blob: &[u8]) -> Option<Vec<usize>> {
+    crate::rpm::signature::pgp::split_packets(blob).map(|p| p.iter().map(|s| s.len()).collect())
+}
